@@ -345,8 +345,8 @@ func trunc(l []string, n int) []string {
 // equal what go-ethereum's own state transition produces.
 func c05Program(r *report.R, id string) {
 	rng := r.Rand(id)
-	genSelfDestruct, genPokes = true, true
-	defer func() { genSelfDestruct, genPokes, genPcQueries = false, false, nil }()
+	genSelfDestruct, genPokes, genCreates = true, true, true
+	defer func() { genSelfDestruct, genPokes, genCreates, genPcQueries = false, false, false, nil }()
 	n := vn.New(vn.Config{Seed: uint64(r.Seed), NumVals: 1, NumAccounts: 8})
 	withQueries := strings.HasPrefix(id, "evmq/")
 	if withQueries {
